@@ -27,6 +27,7 @@ struct Encoded {
     double unit_real = 1000;
     std::vector<CircleRef> circles;
     bool has_missing_refs = false;
+    unsigned validation = 0;  // scheme written in END: 0 none, 1 CRC32, 2 CHECKSUM32
     std::map<std::string, long> stats;
 };
 
@@ -1017,6 +1018,7 @@ struct Enc {
         for (size_t i = 0; i < pad; i++) end.byte(0);
         end.byte(scheme);
         stat("end:validation" + std::to_string(scheme));
+        out.validation = scheme;
         stat(offsets_in_start ? "start:offsets-in-start" : "start:offsets-in-end");
 
         // assemble: plain stream, and the file with CBLOCKs around runs of cell-body records
